@@ -15,6 +15,17 @@ CHECKS = {
    note="Trusted: Coq kernel, extraction (ExtrOcamlBasic), OCaml driver glue, C++ harness/generator, g++. Model is hand-written; unbounded "
         "optimality of cascading descent is not proved (bounded + validated).",
    technique="Coq proof (invariant by induction over operation histories, LP-duality certificate) + differential correspondence"),
+
+ "C15": dict(
+   category="proof", design_ref="DESIGN.md section 4, C15",
+   text="Coq theorems over an interval-subtraction model of Row::freespace / Circuit::computeRows: column-exactness (a column is returned "
+        "iff no positive-area obstacle meeting the row's y-range touches it), segments non-empty/sorted/disjoint/inside, full height and "
+        "orientation kept, movable and non-obstruction cells ignored, obstacle order irrelevant -- all for every row and obstacle list. Tie: "
+        "exact equality of segment lists with the C++ (which delegates to boost::polygon) exhaustively on a small grid and on random "
+        "instances incl. Circuit-level flag combinations; the statement is re-checked column-wise on the C++ output.",
+   note="Trusted: Coq kernel, extraction, OCaml/C++ glue. boost::polygon is not modelled, the model is its contract; inverted rectangles "
+        "are outside the domain.",
+   technique="Coq proof (interval-list invariants, exactness by induction over the obstacle list) + exhaustive/random differential correspondence"),
 }
 NOT_YET = "no check built yet in this round (design in DESIGN.md section 4)"
 NA = {}
